@@ -1,5 +1,7 @@
 SPECIFICATION TSpec
 CONSTANTS
+  TrackedAlts = {1, 2, 3}
+  NTMAlts = {0, 1}
   Strict = TRUE
   Vals = {}
   MaxFuse = 0
